@@ -407,8 +407,8 @@ Op(v) == [k |-> "op", v |-> v]
 Bool(b) == [k |-> "bool", v |-> IF b THEN "true" ELSE "false"]
 Thorough == Tier = "thorough"
 
-Strs == {Str(""), Str("x"), Str("e9"), Str("S65536"), Str("uFFFD"), Str("u1F600"), Str("sp"), Str("X")}
-        \cup (IF Thorough THEN {Str("yz"), Str("S65535"), Str("uFEFF"), Str("u2028")} ELSE {})
+Strs == {Str(""), Str("x"), Str("e9"), Str("S65536"), Str("S65535"), Str("uFFFD"), Str("u1F600"), Str("sp"), Str("X")}
+        \cup (IF Thorough THEN {Str("yz"), Str("uFEFF"), Str("u2028")} ELSE {})   \* S65535 (first size with the 32-bit form) is in both tiers: seeded change C19-10
 \* 2^63-1 needs all 8 bytes of the INTEGER payload, 0.1 all 64 bits of the FLOAT payload
 ELeaf == Strs \cup {Id("req.http.A"), IntL("10"), IntL("9223372036854775807"), [k |-> "float", v |-> "1.5"], [k |-> "float", v |-> "0.1"],
                     [k |-> "rtime", v |-> "10s"], [k |-> "rtime", v |-> "60s"], [k |-> "rtime", v |-> "1.5h"], [k |-> "rtime", v |-> "010ms"],
